@@ -74,7 +74,7 @@ func arbitraryState() encode.VPEnc {
 	}
 	if s.Mode == 2 {
 		s.DrawOp = verbs[vp.Choice("pending", len(verbs))]
-		if n := encode.VPNArgs(s.DrawOp); n > 0 {
+		if n := nargs(s.DrawOp); n > 0 {
 			reps := 1 + vp.Choice("reps", 2)
 			for i := 0; i < n*reps; i++ {
 				s.DrawArgs = append(s.DrawArgs, float32(i%7)-3)
@@ -100,7 +100,7 @@ func inv(s *encode.VPEnc) bool {
 	if s.Mode == 2 && s.Err != nil && s.Err != encode.VPErr(3) {
 		return false
 	}
-	n := encode.VPNArgs(s.DrawOp)
+	n := nargs(s.DrawOp)
 	if s.DrawOp == 0 {
 		return len(s.DrawArgs) == 0
 	}
@@ -210,4 +210,22 @@ func H_ZeroValue() {
 		}
 		vp.Assert(same, "zero-value Encoder produces the same bytes as a reset one")
 	}
+}
+
+// nargs is the operand count of a pending drawing verb as the Encoder's API
+// defines it (arcs carry rx, ry, rotation, flags, x, y); -1: not a verb.
+func nargs(op byte) int {
+	switch op {
+	case 'L', 'l', 'T', 't', 'Y', 'y':
+		return 2
+	case 'Q', 'q', 'S', 's':
+		return 4
+	case 'C', 'c', 'A', 'a':
+		return 6
+	case 'H', 'h', 'V', 'v':
+		return 1
+	case 'Z':
+		return 0
+	}
+	return -1
 }
